@@ -669,7 +669,14 @@ pub async fn catch_up_sub(
         }
     };
 
-    forward_sub_to_sender(matcher, sub_rx, evt_tx, params.skip_rows).await
+    forward_sub_to_sender(
+        matcher,
+        sub_rx,
+        evt_tx,
+        params.skip_rows,
+        Some(last_change_id),
+    )
+    .await
 }
 
 pub async fn upsert_sub(
@@ -692,6 +699,7 @@ pub async fn upsert_sub(
             sub_rx,
             tx,
             params.skip_rows,
+            None,
         ));
 
         bcast_write.insert(handle.id(), sub_tx.clone());
@@ -842,6 +850,8 @@ async fn forward_sub_to_sender(
     mut sub_rx: broadcast::Receiver<(Bytes, QueryEventMeta)>,
     tx: mpsc::Sender<(Bytes, QueryEventMeta)>,
     skip_rows: bool,
+    // after a catch-up: the last change id already delivered to this subscriber
+    mut last_change_id: Option<ChangeId>,
 ) {
     info!(sub_id = %handle.id(), "forwarding subscription events to a sender");
 
@@ -873,6 +883,17 @@ async fn forward_sub_to_sender(
             )
         {
             continue;
+        }
+        if let (Some(last), QueryEventMeta::Change(change_id)) = (last_change_id, meta) {
+            // the broadcast can still deliver changes the catch-up already read from the log
+            if change_id <= last {
+                continue;
+            }
+            if change_id > last + 1 {
+                warn!(sub_id = %handle.id(), "missed changes between {last:?} and {change_id:?}, aborting");
+                return;
+            }
+            last_change_id = Some(change_id);
         }
         if let Err(e) = tx.send((event_buf, meta)).await {
             warn!(sub_id = %handle.id(), "could not send subscription event to channel: {e}");
